@@ -77,6 +77,7 @@ def dump_type(t, root: str) -> dict:
         'names': [f.name for f in fields if f.name],
         'deprecated': bool(t.deprecated), 'root': root, 'fixed_port_id': t.fixed_port_id,
         'empty_sections': sum(1 for s in sections if len([f for f in s.fields_except_padding]) == 0),
+        'padding_only_sections': sum(1 for s in sections if len(s.fields) > 0 and len(s.fields_except_padding) == 0),
         'source': os.path.basename(str(t.source_file_path)),
         'consts': dump_consts(sections),
         # per section: the non-padding fields in declaration order as [name, type encoding]
@@ -127,7 +128,7 @@ def write_case(case: dict, base: str) -> dict:
     return dirs
 
 
-INC_RE = re.compile(r'^\s*#\s*include\s+(\S+)\s*$')
+INC_RE = re.compile(r'^\s*#\s*include\s+(\S+)\s*(?://.*)?$')
 GUARD_RE = re.compile(r'^#ifndef\s+(\w+)\s*$')
 NSO_RE = re.compile(r'^namespace (\w+)$')
 NSC_RE = re.compile(r'^\} // namespace (\w+)$')
